@@ -8,15 +8,30 @@ use std::io::Write;
 
 pub trait CE: Sized + Clone + PartialOrd + PartialEq + std::fmt::Debug {
     fn of(code: i64) -> Self;
+    /// the code an element was made from (inverse of `of` on the codes the drivers use)
+    fn code(&self) -> i64 {
+        -1
+    }
+    /// what hashing the same elements as a slice of NATIVE values feeds (an oracle that does not pass through this
+    /// crate at all); None where the element type itself is from this crate and has no native twin here
+    fn native_feed(_items: &[Self]) -> Option<Vec<i64>> {
+        None
+    }
 }
 impl CE for u8 {
     fn of(c: i64) -> u8 {
         c as u8
     }
+    fn code(&self) -> i64 {
+        *self as i64
+    }
 }
 impl CE for i32 {
     fn of(c: i64) -> i32 {
         c as i32 - 1
+    }
+    fn code(&self) -> i64 {
+        *self as i64 + 1
     }
 }
 impl CE for f64 {
@@ -27,6 +42,9 @@ impl CE for f64 {
 impl CE for String {
     fn of(c: i64) -> String {
         ["", "a", "ab", "b"][(c as usize).min(3)].to_string()
+    }
+    fn code(&self) -> i64 {
+        ["", "a", "ab", "b"].iter().position(|x| x == self).map(|p| p as i64).unwrap_or(-1)
     }
 }
 /// zero-sized element whose own Hash is not a no-op (it feeds its length prefix)
@@ -43,6 +61,15 @@ impl CE for GenericArray<Zn, U2> {
 impl CE for GenericArray<u8, U2> {
     fn of(c: i64) -> Self {
         GenericArray::from([c as u8 / 2, c as u8])
+    }
+    fn code(&self) -> i64 {
+        self[1] as i64
+    }
+    fn native_feed(items: &[Self]) -> Option<Vec<i64>> {
+        let native: Vec<[u8; 2]> = items.iter().map(|g| [g[0], g[1]]).collect();
+        let mut h = RecHasher::default();
+        native.as_slice().hash(&mut h);
+        Some(h.0)
     }
 }
 
@@ -135,10 +162,14 @@ fn ordpair<T: CE + Ord + Hash + Eq, N: ArrayLength>(ety: &str, a: &[i64], b: &[i
     bt.insert(x.clone(), 1);
     let fh = hm.get(y.as_slice()).is_some();
     let fb = bt.get(y.as_slice()).is_some();
+    // the provided methods of Ord, and hashing compared with native values where a native twin exists
+    let mx: Vec<i64> = x.clone().max(y.clone()).iter().map(|e| e.code()).collect();
+    let mn: Vec<i64> = x.clone().min(y.clone()).iter().map(|e| e.code()).collect();
+    let nfeed = T::native_feed(x.as_slice()).unwrap_or_else(|| h2.0.clone());
     writeln!(
         out,
-        "{{\"ev\":\"ordcmp\",\"ety\":\"{}\",\"a\":{},\"b\":{},\"cmp\":{},\"scmp\":{},\"hash\":{},\"shash\":{},\"found_hash\":{},\"found_btree\":{}}}",
-        ety, list(a), list(b), ord(Some(x.cmp(&y))), ord(Some(x.as_slice().cmp(y.as_slice()))), list(&h1.0), list(&h2.0), fh, fb
+        "{{\"ev\":\"ordcmp\",\"ety\":\"{}\",\"a\":{},\"b\":{},\"cmp\":{},\"scmp\":{},\"hash\":{},\"shash\":{},\"nhash\":{},\"found_hash\":{},\"found_btree\":{},\"max\":{},\"min\":{}}}",
+        ety, list(a), list(b), ord(Some(x.cmp(&y))), ord(Some(x.as_slice().cmp(y.as_slice()))), list(&h1.0), list(&h2.0), list(&nfeed), fh, fb, list(&mx), list(&mn)
     )
     .unwrap();
 }
